@@ -37,7 +37,7 @@ def run(ck):
     ck.clause("C08.3", "AlignedRest True exactly for second-pass rows")
     ck.clause("C08.4", "join eligibility predicate and its wiring to --maxDifference")
     ck.clause("C08.5", "resolve: every row of a group is consumed exactly once")
-    ck.clause("C08.6", "joined row = conflict resolution of the two parts' first segments, earlier part left")
+    ck.clause("C08.6", "joined row = conflict resolution of the two parts' facing segments, earlier part left; nothing out of order")
     ck.clause("C08.7", "resolve receives exactly the reported first-pass ++ second-pass records")
     ck.clause("C08.8", "saveAdditionalOutput writes exactly the rows it is given (no per-query filter)")
     modes, default, mnode = declared_modes(ck)
@@ -548,18 +548,21 @@ def _segments_owner(t):
 
 def _joined_segments(ck, fn, w, src, resolution, pl, pr, facts):
     """What the joined row is made of.  F = the earlier part (its segment pl[1] is the left one of the conflict pair), S = the
-    later part.  Two things are decided on the list handed to AlignmentResultRow.create:
+    later part.  Two things are decided on the list handed to AlignmentResultRow.create, and they pull in opposite directions:
 
-    C08.6  only-resolved: whatever is in the list besides the two resolved segments is F.segments[:-1] in front of them and
-           S.segments[1:] behind them, with F's *last* segment as the left one of the pair (anything else puts segments next to
-           each other that were never checked against each other, or out of reference order);
-    C08.10 parts-kept: every segment of both parts reaches the joined row - either in that shape, or because both parts are known
-           to hold exactly one segment.  Resolving `segments[0]` of each part and dropping the rest loses the pairs of every further
-           segment, although the union of the two parts may be a perfectly valid matching."""
+    C08.6  only-resolved (also C01.10): every segment of the joined row went through conflict resolution against its neighbours
+           in that row.  The join bypasses the chainer, so the only segments it may put side by side are the two it resolved
+           against each other.  A segment of a part that is merely carried over ("keep the other segments too") was never
+           checked against the other part: on a molecule spanning a tandem-duplication junction the carried-over segment and the
+           other part cross, and the record is no longer collinear (round-4 change C01-H - which is also the obvious repair of
+           C08.10, tried and withdrawn, DESIGN section 5).
+    C08.10 parts-kept: every segment of both parts reaches the joined record (the structural necessary condition of "when the
+           union of the parts is a valid matching the joined record is exactly the union").  That is the case when both parts
+           are known to hold one segment each - or when the joined segments are the output of the conflict resolver (chain +
+           pairwise resolution) over all segments of both parts, the one shape that satisfies both clauses."""
     ck.clause("C08.10", "a joined record keeps every segment of both parts (when their union is a valid matching it is exactly the union)")
     F, S = pl[0], pr[0]
     res0, res1 = T.mk_idx(resolution, C(0)), T.mk_idx(resolution, C(1))
-    items = list(src[1]) if src[0] in ("list", "tuple") else None
     parts = list(src[1]) if src[0] == "concat" else [src]
     flat = []
     for x in parts:
@@ -568,42 +571,32 @@ def _joined_segments(ck, fn, w, src, resolution, pl, pr, facts):
         else:
             flat.append(("seq", x))
     elts = [y for k, y in flat if k == "elt"]
+    seqs = [y for k, y in flat if k == "seq"]
     if sorted(map(T.key, elts)) != sorted(map(T.key, [res0, res1])):
         ck.violation("C08.6", "AlignmentResultRow.resolve:only-resolved", w, "the joined row is built around the two segments that "
                      "went through conflict resolution", found=T.show(src)[:200], required="[seg1, seg2] of pair.resolveConflict()")
         return
-    seqs = [(i, y) for i, (k, y) in enumerate(flat) if k == "seq"]
-    first_res = min(i for i, (k, y) in enumerate(flat) if k == "elt")
-    before = [y for i, y in seqs if i < first_res]
-    after = [y for i, y in seqs if i > first_res]
-    def is_before(x):
-        return x[0] == "slice" and _segments_owner(x[1]) == F and x[2:] == (T.NONE, C(-1), T.NONE)
-
-    def is_after(x):
-        return x[0] == "slice" and _segments_owner(x[1]) == S and x[2:] == (C(1), T.NONE, T.NONE)
-    want_before, want_after = "F[:-1]", "S[1:]"
-    before = [want_before if is_before(x) else x for x in before]
-    after = [want_after if is_after(x) else x for x in after]
-    shape_ok = before in ([], [want_before]) and after in ([], [want_after]) and (not before or pl[1] == -1) and \
-        (pl[1] == 0 or before == [want_before] or not seqs)
-    if seqs:
-        ck.judge(shape_ok and pl[1] == -1, "C08.6", "AlignmentResultRow.resolve:only-resolved", w,
-                 "segments kept besides the two resolved ones are the earlier part's segments before its last one (in front) and the "
-                 "later part's segments after its first one (behind); the pair resolved is (earlier.segments[-1], later.segments[0]) - "
-                 "nothing is put next to a segment it was not checked against, nothing out of reference order",
-                 found=T.show(src)[:240], required="earlier.segments[:-1] + [seg1, seg2] + later.segments[1:]")
-    else:
-        ck.ok("C08.6", "AlignmentResultRow.resolve:only-resolved", w, "the joined row holds the two resolved segments only")
+    ck.judge(not seqs, "C08.6", "AlignmentResultRow.resolve:only-resolved", w,
+             "the joined row consists of the two segments that went through conflict resolution against each other - nothing is "
+             "carried over that was never checked against the other part (carried-over segments can cross it: the record would "
+             "not be collinear)", found=T.show(src)[:240], required="[seg1, seg2] of pair.resolveConflict()  (or the conflict "
+             "resolver run over all segments of both parts)")
 
     def single(P):
         n_ = T.mk_call("len", [T.mk_attr(P, "segments")])
         return facts.get(T.mk_eq(n_, C(1))) is True or facts.get(T.mk_lt(C(1), n_)) is False or facts.get(T.mk_le(n_, C(1))) is True
-    complete = (before == [want_before] or single(F)) and (after == [want_after] or single(S)) and (pl[1] == -1 or single(F))
+
+    def keeps_rest(P, k):
+        want = ("slice", None, T.NONE, C(-1), T.NONE) if k == -1 else ("slice", None, C(1), T.NONE, T.NONE)
+        return any(x[0] == "slice" and _segments_owner(x[1]) == P and x[2:] == want[2:] for x in seqs)
+    complete = (single(F) or keeps_rest(F, pl[1])) and (single(S) or keeps_rest(S, pr[1]))
     ck.judge(complete, "C08.10", "AlignmentResultRow.resolve:parts-kept", w,
-             "every segment of both parts reaches the joined record (a part with several segments is not cut down to its first one)",
+             "every segment of both parts reaches the joined record (a part with several segments is not cut down to the one that "
+             "was resolved)",
              found=f"joined segments = {T.show(src)[:160]} with the pair ({T.show(T.mk_idx(T.mk_attr(F, 'segments'), C(pl[1])))[-40:]}, "
-                   f"{T.show(T.mk_idx(T.mk_attr(S, 'segments'), C(0)))[-40:]}); nothing else of either part is kept",
-             required="earlier.segments[:-1] + [seg1, seg2] + later.segments[1:]  (or parts known to hold one segment each)")
+                   f"{T.show(T.mk_idx(T.mk_attr(S, 'segments'), C(pr[1])))[-40:]}); nothing else of either part is kept",
+             required="all segments of both parts, e.g. the conflict resolver run over self.segments + alignedRest.segments "
+                      "(or parts known to hold one segment each)")
 
 
 def _joined_row(ck):
@@ -646,6 +639,18 @@ def _joined_row(ck):
         res = [x for x in T.subterms(segs)] if segs else []
         resolves = [x for x in res if (x[0] == "mcall" and x[2] == "resolveConflict") or
                     (x[0] == "app" and x[1].endswith(".resolveConflict"))]
+        via_resolver = [x for x in res if x[0] == "app" and x[1].endswith("AlignmentSegmentConflictResolver.resolveConflicts")]
+        if via_resolver:
+            # the one shape that is complete *and* checked: chain + pairwise resolution over all segments of both parts
+            arg = list(dict(via_resolver[0][3]).values())[0] if via_resolver[0][3] else None
+            both = arg is not None and any(_segments_owner(x) == V(fn.self_name) for x in T.subterms(arg)) and \
+                any(_segments_owner(x) == other for x in T.subterms(arg))
+            ck.clause("C08.10", "a joined record keeps every segment of both parts (when their union is a valid matching it is exactly the union)")
+            ck.judge(bool(both), "C08.10", "AlignmentResultRow.resolve:parts-kept", w, "the conflict resolver is run over the segments of "
+                     "both parts", found=T.show(arg)[:200] if arg else "None", required="self.segments + alignedRest.segments")
+            ck.ok("C08.6", "AlignmentResultRow.resolve:only-resolved", w, "joined segments are the resolver's output (chained and "
+                  "pairwise resolved)")
+            continue
         if not resolves:
             ck.violation("C08.6", "AlignmentResultRow.resolve:segments", w,
                          "segments of the joined row do not come from conflict resolution of the parts",
